@@ -47,7 +47,7 @@ func main() {
 	maxSteps := flag.Int64("max-steps", 2_000_000, "SSA step limit per path (unwinding assertion)")
 	maxDepth := flag.Int("max-depth", 2000, "call depth limit")
 	out := flag.String("out", "", "JSON result file (default stdout)")
-	solver := flag.String("solver", "z3", "z3 | z3-new | cvc5")
+	solver := flag.String("solver", "z3-new", "z3 | z3-new | cvc5")
 	solverMs := flag.Int("solver-ms", 10000, "per-query timeout in ms")
 	sample := flag.Int("sample-every", 0, "record a model for every k-th path")
 	overlay := flag.String("overlay", "", "JSON file {virtual path: real path} of source overlays")
